@@ -153,6 +153,15 @@ def cycle(m, exp, attr, focus):
         fails.append("re-read compose section differs")
     if m2.dumps() != text:
         fails.append("second dump is not byte-identical")
+    # reading the file into an object that already holds entries (the builder itself) gives the file's mapping, too
+    try:
+        m.loads(text)
+        if getattr(m, attr) != exp:
+            fails.append("file read into the object that built it gives a different mapping: %s" % json.dumps(getattr(m, attr), sort_keys=True)[:300])
+        elif m.dumps() != text:
+            fails.append("file read into the object that built it is re-written differently")
+    except Exception as exc:
+        fails.append("file cannot be read into the object that built it: %s: %s" % (type(exc).__name__, exc))
     if text != json.dumps(json.loads(text), indent=4, sort_keys=True, separators=(",", ": ")):
         fails.append("dump is not canonical JSON (sorted keys, indent 4)")
     return fails
